@@ -1238,18 +1238,25 @@ func (c11) Run(plan interface{}, schedSeed uint64, replay []simrt.Choice, lenien
 				// non-info EEDs that precede the aborting callback invocation
 				var before, all []string
 				cbIdx := -1
+				// "received so far": the call goes on consuming the response up to its final DONE (the first one
+				// behind the failing package - or the end of the message) before it returns: the messages it meets
+				// on the way were received by this call and by nobody else
+				drained := false
 				for _, it := range rd.Items {
 					if !it.visible() {
 						continue
 					}
 					if it.K == "eed" {
-						if cbIdx < rd.StopAt {
+						if cbIdx < rd.StopAt || !drained {
 							before = append(before, it.describe())
 						}
 						all = append(all, it.describe())
 						continue
 					}
 					cbIdx++
+					if cbIdx >= rd.StopAt && (it.K == "done" || it.K == "doneproc") && it.Status == 0 {
+						drained = true
+					}
 				}
 				var eedErr *tds.EEDError
 				isEED := errors.As(ro.callErr, &eedErr)
